@@ -193,6 +193,19 @@ func (d *Decoder) DecodeInteger() (uint64, error) {
 	return d.decodeUintFromReader()
 }
 
+// decodeIntegerBits decodes a C.6 natural that is stored in a field of the given width and
+// rejects values that do not fit (they would be silently truncated and re-encode differently).
+func (d *Decoder) decodeIntegerBits(bits uint) (uint64, error) {
+	v, err := d.decodeUintFromReader()
+	if err != nil {
+		return 0, err
+	}
+	if bits < 64 && v >= uint64(1)<<bits {
+		return 0, fmt.Errorf("integer %d does not fit in %d bits", v, bits)
+	}
+	return v, nil
+}
+
 // C.6 Deserialization
 func (d *Decoder) DecodeLength() (uint64, error) {
 	cLog(Yellow, "Reading length flag")
